@@ -82,6 +82,29 @@ fn main() {
             let case = v["case"].clone();
             run_on_big_stack(move || framework::runcase_main(check, &case));
         }
+        "compile" => {
+            // dev helper: compile an ST file, run N cycles (10 ms apart), dump storage
+            let text = std::fs::read_to_string(&args[2]).expect("read source");
+            let cycles: u64 = args.get(3).and_then(|s| s.parse().ok()).unwrap_or(1);
+            match world::compile(&text) {
+                Err(e) => {
+                    println!("COMPILE ERROR: {e}");
+                    std::process::exit(1);
+                }
+                Ok(mut rt) => {
+                    rt.io_mut().resize(16, 16, 16);
+                    for c in 0..cycles {
+                        rt.set_current_time(trust_runtime::value::Duration::from_nanos((c as i64 + 1) * 10_000_000));
+                        let r = rt.execute_cycle();
+                        println!("cycle {c}: {r:?} executed={}", verif_hooks::budget::executed());
+                    }
+                    for (k, v) in world::dump_storage(&rt) {
+                        println!("{k} = {v}");
+                    }
+                    println!("outputs={:?}", rt.io().outputs());
+                }
+            }
+        }
         "replay" => {
             if args.len() < 3 {
                 usage();
